@@ -45,10 +45,37 @@ impl ToolRunner {
 }
 //@@ fn crates/ripd/src/session.rs rejected_tool_invocation_events
 //@@ end
+// rip-log: the appender, over a writer that records what was written and what was flushed, with scripted failures
+pub mod logw {
+    use std::io;
+    pub struct W { pub written: Vec<u8>, pub flushed: usize, pub fail_at: Option<usize>, pub calls: usize }
+    impl W {
+        fn step(&mut self) -> io::Result<()> { let k = self.calls; self.calls += 1; if self.fail_at == Some(k) { Err(io::Error::new(io::ErrorKind::Other, "io")) } else { Ok(()) } }
+        pub fn write_all(&mut self, b: &[u8]) -> io::Result<()> { self.step()?; self.written.extend_from_slice(b); Ok(()) }
+        pub fn flush(&mut self) -> io::Result<()> { self.step()?; self.flushed = self.written.len(); Ok(()) }
+    }
+    pub mod serde_json { pub fn to_string(e: &super::super::Event) -> Result<String, String> { Ok(format!("{{\"seq\":{},\"stream\":\"{}\"}}", e.seq, e.session_id)) } }
+    pub struct EventLog { pub path: std::path::PathBuf, pub writer: std::sync::Mutex<W> }
+    use super::Event;
+    impl EventLog {
+        //@@ fn crates/rip-log/src/lib.rs EventLog::append pub
+        //@@ end
+    }
+}
 
 fn contiguous(frames: &[Event], from: u64, sid: &str) -> bool { frames.iter().enumerate().all(|(i, e)| e.seq == from + i as u64 && e.session_id == sid) }
 
 fn main() {
+    // ---- EventLog::append: one frame = its line + newline, flushed, or an error; every failure point ----
+    for fail_at in [None, Some(0usize), Some(1), Some(2)] {
+        let log = logw::EventLog { path: PathBuf::new(), writer: std::sync::Mutex::new(logw::W { written: vec![], flushed: 0, fail_at, calls: 0 }) };
+        let e = Event { id: "i".into(), session_id: "s".into(), timestamp_ms: 0, seq: 4, kind: EventKind::SessionEnded { reason: "r".into() } };
+        let r = log.append(&e);
+        let w = log.writer.lock().unwrap();
+        let line = logw::serde_json::to_string(&e).unwrap();
+        let ok = match fail_at { None => r.is_ok() && w.written == format!("{line}\n").into_bytes() && w.flushed == w.written.len(), Some(_) => r.is_err() };
+        if !ok { println!("WITNESS {{\"function\": \"EventLog::append\", \"io_failure_at_call\": {:?}, \"bytes_written\": {:?}, \"flushed\": {}, \"result_ok\": {}, \"problem\": \"a successful append is not exactly the frame's line plus a newline, flushed / a failed write reported success\"}}", fail_at, String::from_utf8_lossy(&w.written), w.flushed, r.is_ok()); return; }
+    }
     // ---- Session::next_event: every abort script over the three hook calls, every starting counter ----
     for start in [0u64, 5] { for code in 0..8u8 {
         let script: Vec<bool> = (0..3).map(|i| (code >> i) & 1 == 1).collect();
